@@ -30,7 +30,8 @@ CLAIMS = {
        "and the recursion as a whole (each step is decided against an arbitrary result of the next), the "
        "literal-vs-query special cases and list flattening of EqOperation / InOperation, functions inside clauses. The Kani evaluation context "
        "is a harness stub that returns planted query results; the MIR checks model every callee by a symbolic result and keep loops to "
-       "<= 2 iterations (longer selections are cut and counted in the evidence).",
+       "<= 2 iterations (longer selections are cut and counted in the evidence)."
+       "Added later: the three clause dispatchers (each clause kind is handed to the evaluator of its kind with its own payload and the scope given), scope discipline (guards in the enclosing scope, bodies in block_scope(this block), per selected value a ValueScope rooted at that value), PartialEq of MapValue / PathAwareValue per pair of kinds, resolve_function (built-in call arguments).",
   design="4/C01"),
  "C02": dict(
   text="Bounded model checking of the combinator sites: eval_conjunction_clauses for every leaf outcome vector (PASS/FAIL/SKIP/Err) "
@@ -49,7 +50,8 @@ CLAIMS = {
        "the record hook of a parameterised rule call rebuilds only the RuleCheck of the rule the call names and keeps its name and status "
        "(only the message may change); the per-value records of `empty` on a variable / filter carry the final (negated) status. NOT covered: "
        "the records written by filters, whole-run well-nesting (only each single start / end step is decided), "
-       "the JSON rendering.",
+       "the JSON rendering."
+       "Added later: the record hooks of the three scopes are pure delegations (nothing else is written when a record passes through).",
   design="4/C02"),
  "C03": dict(
   text="Bounded model checking of negation on the unary path at leaf level (not_operation / inverse_operation laws for all 9 unary "
@@ -78,7 +80,8 @@ CLAIMS = {
        "tracked by identity) plus root_scope's name -> definitions table (every definition appended under its own name), the order-free fold of eval_rules_file and the named-rule status rule (RootScope::rule_status, <=2 definitions: the cached status if "
        "present, else the definitions of that name are evaluated in order through eval_rule and the first status that is not SKIP "
        "decides, SKIP if all are; the result is stored under that name and returned). NOT covered: the traversal that fills those caches, key "
-       "capture (add_variable_capture_key), parameterised rules.",
+       "capture (add_variable_capture_key), parameterised rules."
+       "Added later: the pass-through methods of RootScope / BlockScope / ValueScope (record hooks, rule_status, find_parameterized_rule ...) make exactly one call with the arguments given and write nothing - no memo table is fed from a record passing through.",
   design="4/C04"),
  "C05": dict(
   text="Order-independence, decided on MIR (z3+cvc5): inside one process image the only run-to-run variable is the iteration order of "
@@ -227,7 +230,8 @@ CLAIMS = {
        "the left operand set with one of the right operand set, with compare_eq; compare_eq on two lists / two maps of <= 2 entries (member "
        "comparison arbitrary): lists are equal iff same length and pairwise equal in order, maps iff same size and every left key is present "
        "on the right with an equal value; member errors are passed on. NOT covered: regex matching (engine stubbed out), deeper nesting than "
-       "one level per obligation (each level is the same obligation), collections longer than the unroll bound.",
+       "one level per obligation (each level is the same obligation), collections longer than the unroll bound."
+       "Added later: MapValue == MapValue is exactly IndexMap::eq of the two value tables (order-free by indexmap's contract); PathAwareValue == PathAwareValue dispatches per pair of kinds (12 x 12 minus String/Regex) to the stated callee on the operands in order and returns its answer unchanged.",
   design="4/C13"),
  "C14": dict(
   text="The part of the parser that engine B can read (MIR of the crate's own parser functions; every nom combinator application - tag, "
@@ -247,7 +251,8 @@ CLAIMS = {
   note="NOT decided (they live inside nom, which CBMC cannot run even on 2 symbolic bytes and whose closures engine B treats as opaque): "
        "indentation, blank lines, trailing spaces, line breaks inside lists / filters, comments, `.n` vs `[n]` at parse level, the implicit "
        "default rule. These appear only in the native replay battery, i.e. they are exercised when some obligation "
-       "is refuted, not decided by a solver. No Kani harness serves this property.",
+       "is refuted, not decided by a solver. No Kani harness serves this property."
+       "Added later: `.n` and `[n]` - the two conversion closures run on ONE shared symbolic i64 literal (second executor's symbols renamed apart, casts with exact wrap-around) build the same QueryPart::Index for every literal; 28 spelling pairs in the native replay, incl. literals >= 2^31.",
   design="0b/C14"),
  "C15": dict(
   text="Bounded symbolic execution (MIR, callees modelled, value identities tracked; z3+cvc5) of the resolution machinery: "
@@ -263,7 +268,8 @@ CLAIMS = {
   note="This decides the wiring of variable and parameter resolution, not program equivalence: that a program and its abstracted form "
        "give the same verdict additionally needs query traversal, block_scope construction (extract_variables) and the parser's "
        "`[*]` insertion after a leading variable, none of which is examined. The `%var empty` exception is covered under C01/C03 "
-       "(k8v harnesses). No Kani harness serves this property.",
+       "(k8v harnesses). No Kani harness serves this property."
+       "Added later: scope discipline (which scope guards, bodies and per-value blocks run in; a guarded block's own lets are not visible to its guard), scope delegations, and resolve_function (arguments of built-in calls evaluated in the scope given).",
   design="0b/C15"),
  "C16": dict(
   text="Bounded model checking of the expectation-matching kernel get_status_result (1..3 definitions x all statuses x all expectations: "
@@ -276,7 +282,8 @@ CLAIMS = {
        "get_status_result(expected, this rule's records) decides passed_rules / failed_rules with the right statuses); the number arm of the "
        "serde_yaml / serde_json loaders that feed `test` (Int only with the exact i64 value - see C11) and their agreement with the validate loader on short-form tags.",
   note="NOT covered: that `test` and `validate` compute the same statuses (two loaders + the evaluator), `--dir` mode, the rendering of "
-       "the four output formats.",
+       "the four output formats."
+       "Added later: every rule recorded by the structured test reporter is an entry of get_by_rules' OWN result (a loop over a re-keyed or filtered copy refutes the obligation); rule names differing only in letter case are in the native replay. This obligation had been vacuous for a while (see DESIGN 0.4) - a generic zero-count guard now makes such an obligation inconclusive.",
   design="4/C16"),
  "C17": dict(
   text="PathAwareValue::merge decided twice: by Kani/CBMC on one-entry maps with symbolic integer values (equal keys: MultipleValues "
@@ -305,7 +312,8 @@ CLAIMS = {
        "member 0, delimiter, member 1, ... member n-1 - one delimiter between neighbours, none before the first or after the last.",
   note="NOT covered: the characters join produces (only the append sequence is decided; Kani covers 2 members), parse_bool/to_upper/to_lower "
        "(Unicode case tables reachable through heap-held kinds), url_decode, regex_replace, json_parse, parse_epoch, now, string "
-       "parsing (`parse::<i64>` on symbolic bytes), dispatch/arity in the parser, results bound to variables.",
+       "parsing (`parse::<i64>` on symbolic bytes), dispatch/arity in the parser, results bound to variables."
+       "Added later: resolve_function and its per-argument closure - a literal argument becomes [Literal(v)], a query argument is evaluated in the scope given, a nested call recursively; the function named is called on exactly the folded list; its present results are wrapped as Resolved values in order.",
   design="4/C18"),
  "C19": dict(
   text="The part of rulegen that engine B can read (MIR; serde / HashMap / formatting calls modelled; z3+cvc5): print_rules hands the text it "
